@@ -6,6 +6,7 @@ only, never the real graphs.
 ORIGINS = (0, 0, -7, 10 ** 9)
 INT_NODES = [0, 1, 2, 3, 4, 5]
 STR_NODES = ['a', 'b', 'c', 'd', 'e', 'f']
+STR_NODES_X = ['a', '\u00f1', 'c', '\u00e9', 'e', '\u00fc']     # non-ASCII ids (I/O focuses): encodings must matter
 SPAN_CLASSES = ['gap', 'adjacent', 'overlap', 'overlap-samestart', 'contained', 'dup', 'ooo']
 
 
@@ -22,9 +23,12 @@ def wchoice(rng, table):
 
 def swarm(rng, focus):
     """per-run configuration (swarm style): sizes, enabled classes, rates"""
+    pool = list(INT_NODES) if rng.random() < 0.7 else list(STR_NODES)
+    if focus in ('C09', 'C10', 'C18', 'C11') and rng.random() < 0.25:
+        pool = list(STR_NODES_X)
     cfg = {
         'origin': rng.choice(ORIGINS),
-        'nodes': (list(INT_NODES) if rng.random() < 0.7 else list(STR_NODES))[:rng.randint(2, 6)],
+        'nodes': pool[:rng.randint(2, 6)],
         'steps': rng.randint(3, 40) if rng.random() < 0.5 else rng.randint(3, 12),
         'horizon': rng.randint(6, 14),
         'w': {},
@@ -299,10 +303,14 @@ def gen_restart(rng, rep, cfg, via, faults=False):
     if op['delimiter'] in (' ', '\t') and rng.random() < 0.5:
         op['read_delimiter'] = None
     op['encoding'] = rng.choice(ENCODINGS)
+    nonascii = any(isinstance(n, str) and not n.isascii() for n in cfg['nodes'])
+    if nonascii and op['encoding'] == 'ascii':
+        op['encoding'] = 'latin-1'
     op['bufsize'] = rng.choice([16, 64, 512, 8192])
     op['rchunk'] = rng.choice([1, 7, 64, 8192])
     op['wchunk'] = rng.choice([3, 50, 1 << 30])
-    if op['target'] == 'path' and op['ext'] == '' and rng.random() < 0.25:
+    if op['target'] == 'path' and op['ext'] == '' and rng.random() < 0.25 and \
+            (not nonascii or op['encoding'] == 'utf-8'):     # the second pass of keys=True reads with the default codec
         op['keys'] = True
     if faults:
         x = rng.random()
@@ -353,9 +361,14 @@ def gen_parse(rng, cfg):
     op = {'op': 'parse', 'fmt': fmt, 'directed': directed, 'rows': rows, 'delimiter': rng.choice(DELIMS),
           'nodekind': 'int' if isinstance(cfg['nodes'][0], int) else 'str',
           'via': rng.choice(['parse', 'read']), 'rchunk': rng.choice([1, 7, 8192]), 'bufsize': rng.choice([16, 8192])}
-    kinds = ['blank', 'spaces', 'tab', 'comment', 'comment-indented', 'short1', 'short2', 'short3-or-5', 'five']
+    kinds = ['blank', 'spaces', 'tab', 'comment', 'comment-indented', 'short1', 'short2', 'short3-or-5', 'five',
+             'comment2', 'commented-row']
     op['noise'] = [[rng.randint(0, len(rows)), rng.choice(kinds)] for _ in range(rng.randint(0, 5))]
-    op['deco'] = {str(i): rng.choice(['trail-comment', 'pad', 'pad-tab']) for i in range(len(rows)) if rng.random() < 0.25}
+    op['deco'] = {str(i): rng.choice(['trail-comment', 'trail-comment2', 'pad', 'pad-tab']) for i in range(len(rows))
+                  if rng.random() < 0.25}
+    op['spell'] = {str(i): rng.choice(['zero', 'plus']) for i in range(len(rows)) if rng.random() < 0.2}
+    nonascii = any(isinstance(n, str) and not n.isascii() for n in cfg['nodes'])
+    op['encoding'] = rng.choice(['utf-8', 'latin-1', 'cp1252'] if nonascii else ENCODINGS)
     x = rng.random()
     if x < 0.15:
         op['bad_row'] = rng.randrange(len(rows))
@@ -363,6 +376,8 @@ def gen_parse(rng, cfg):
     elif x < 0.4:
         op['keys'] = True
         op['via'] = 'read'
+        if nonascii:
+            op['encoding'] = 'utf-8'
     return op
 
 
